@@ -611,6 +611,12 @@ func (g *G) Inbound(label string, o InboundOpts) Inbound {
 			b.MintRecip = g.Bytes(label+"/mrb", 32) // high 12 bytes non-zero
 		case 1:
 			b.MintRecip = append([]byte{}, msg.Sender...)
+		case 3:
+			if g.Bool(label + "/mrmod") {
+				b.MintRecip = Pad32(ModuleAddrBytes()) // the module mints to itself: still a mint request like any other
+			} else {
+				b.MintRecip = Pad32(AcctBytes(g.Acct(label + "/mra3")))
+			}
 		case 2:
 			// an address written into the HIGH 20 bytes (right-padded): the recipient is still the low 20 bytes
 			b.MintRecip = make([]byte, 32)
@@ -663,6 +669,10 @@ func (g *G) Inbound(label string, o InboundOpts) Inbound {
 			}
 		}
 		msg.Body = g.Body(label + "/body")
+		if g.Pct(label+"/bigbody", 2) {
+			// far larger than anything this chain would send: the size limit is the sender's, not the receiver's
+			msg.Body = bytes.Repeat([]byte{0xb0, 0xd1}, Pick(g, label+"/bigl", []int{4096, 4097, 5000, 10000})+g.Int(label+"/bigx", 0, 1))
+		}
 	}
 	bz, err := refcodec.EncodeMessage(msg)
 	if err != nil {
